@@ -394,6 +394,7 @@ fn c15_case(seed: u64, index: u64, rep: &mut Report) {
     let mut deleted_any = false;
     for (k, m) in order.iter().enumerate() {
         let v2 = r.chance(1, 3);
+        if std::env::var("YV_DEBUG").is_ok() { use yrs::updates::decoder::Decode; eprintln!("twin <- msg{} = {:?}\n   gc twin store before: {} skips?", m, yrs::Update::decode_v1(&h.msgs[*m].1), store_dump(&g.doc).blocks.iter().map(|(c, bs)| format!("{}: {}", c, bs.iter().map(|b| match b { yrs::verif::VBlock::Item(i) => format!("I{}+{}{}", i.id.clock, i.len, if i.deleted {"~"} else {""}), yrs::verif::VBlock::GC(id, l) => format!("G{}+{}", id.clock, l), yrs::verif::VBlock::Skip(id, l) => format!("S{}+{}", id.clock, l) }).collect::<Vec<_>>().join(" "))).collect::<Vec<_>>().join(" | ")); }
         let (a, b) = if v2 { (g.apply_v2(&h.msgs[*m].2), ng.apply_v2(&h.msgs[*m].2)) } else { (g.apply_v1(&h.msgs[*m].1), ng.apply_v1(&h.msgs[*m].1)) };
         if a.is_err() != b.is_err() { fails.push(json!({"class": "gc-twin-apply-result-differs", "step": k})); }
         if r.chance(1, 4) { let d0 = public_dump(&g.doc); { let mut t = g.doc.transact_mut(); t.gc(None); } if public_dump(&g.doc) != d0 { fails.push(json!({"class": "forced-gc-changed-content", "step": k, "before": d0, "after": public_dump(&g.doc)})); } rep.count("c15_forced_gc"); }
@@ -417,6 +418,8 @@ fn c15_case(seed: u64, index: u64, rep: &mut Report) {
         for _ in 0..3 {
             let (sa, sb) = (a.doc.transact().state_vector(), b.doc.transact().state_vector());
             let ua = a.doc.transact().encode_state_as_update_v1(&sb); let ub = b.doc.transact().encode_state_as_update_v1(&sa);
+            if std::env::var("YV_DEBUG").is_ok() { use yrs::updates::decoder::Decode; let pr = |d: &yrs::Doc| store_dump(d).blocks.iter().map(|(c, bs)| format!("{}: {}", c, bs.iter().map(|b| match b { yrs::verif::VBlock::Item(i) => format!("I{}+{}{}", i.id.clock, i.len, if i.deleted {"~"} else {""}), yrs::verif::VBlock::GC(id, l) => format!("G{}+{}", id.clock, l), yrs::verif::VBlock::Skip(id, l) => format!("S{}+{}", id.clock, l) }).collect::<Vec<_>>().join(" "))).collect::<Vec<_>>().join(" | ");
+                eprintln!("exchange i={} j={}: a={} \n b={}\n ua={:?}\n ub={:?}", i, j, pr(&a.doc), pr(&b.doc), yrs::Update::decode_v1(&ua), yrs::Update::decode_v1(&ub)); }
             let _ = b.apply_v1(&ua); let _ = a.apply_v1(&ub);
         }
         let pend = a.doc.transact().has_missing_updates() || b.doc.transact().has_missing_updates();
